@@ -240,6 +240,15 @@ def prelude(ch, ctx, pid, names, z, F, ideal_main, T, P):
     return mode
 
 
+def set_default(ch, ctx, pid, ideal_main):
+    """The global default package (tmo.settings) is drawn independently of the stream's own package: a stream built with
+    thermo= must be flashed with its own models whatever the default is (same Chemical objects, other Gamma)."""
+    which = ch.choice('settings', ['same', 'other'])
+    ctx.cell('settings:' + which)
+    tmo.settings.set_thermo(package(pid, ideal=ideal_main if which == 'same' else not ideal_main))
+    return which
+
+
 def call_vle(ctx, s, site, region, **kw):
     try:
         ctx.call(site, lambda: s.vle(**kw), allowed=REJECT, region=region)
@@ -449,6 +458,7 @@ def prop_spec(ch, ctx):
     approx = reference(pid, names, ideal=(True if pair[1] not in 'xy' else ideal))
     kw, mol, stratum = draw_spec_values(ch, ctx, pid, th, names, z, F, inerts, pair, approx)
     s = build(th, names, mol, inerts, start)
+    set_default(ch, ctx, pid, ideal)
     itag = ('g' if any(th.chemicals[k].locked_state == 'g' for k in inerts) else '') + \
            ('h' if any(th.chemicals[k].locked_state != 'g' for k in inerts) else '') + \
            ('c' if any(th.chemicals[k].locked_state != 'g' and (th.chemicals[k].N_solutes or 0) for k in inerts) else '')
@@ -552,8 +562,8 @@ def prop_vspec(ch, ctx):
         ctx.reject('reference envelope bracket')
     region = nvol_tag(n)
     prelude(ch, ctx, pid, names, z, F, False, kw.get('T', 350.0), kw.get('P', 101325.0))
-    tmo.settings.set_thermo(th)
     s = build(th, names, z * F, {}, start)
+    set_default(ch, ctx, pid, False)
     ctx.cell('vspec:' + pair); ctx.cell('vspec:' + region)
     call_vle(ctx, s, pair, region, **kw)
     check_echo(ctx, s, kw, pair, region)
@@ -674,8 +684,8 @@ def prop_boundary(ch, ctx):
     region = f'{stratum},fam={pid}'
     ctx.cell('boundary:' + stratum)
     prelude(ch, ctx, pid, names, z, F, False, T, P)
-    tmo.settings.set_thermo(th)
     s = build(th, names, z * F, {}, start)
+    set_default(ch, ctx, pid, False)
     kw = dict(T=T, P=P)
     call_vle(ctx, s, 'TP', region, **kw)
     check_echo(ctx, s, kw, 'TP', region)
@@ -741,9 +751,9 @@ def prop_ideal(ch, ctx):
     T = float(T); P = float(P)
     region = f'{nvol_tag(n)},{ "two" if Pd < P < Pb else "single"}'
     pre = prelude(ch, ctx, pid, names, z, F, True, T, P)
-    tmo.settings.set_thermo(th)
     region += f',pre={int(pre != "none")}'
     s = build(th, names, z * F, {}, start)
+    set_default(ch, ctx, pid, True)
     kw = dict(T=T, P=P)
     ctx.cell('ideal:' + ('two' if Pd < P < Pb else 'single'))
     call_vle(ctx, s, 'TP', region, **kw)
@@ -800,6 +810,7 @@ def prop_scaling(ch, ctx):
     ctx.cell('scale:' + pair)
     s1 = build(th, names, mol, inerts, start)
     s2 = build(th, names, mol, inerts, start, scale=k)
+    set_default(ch, ctx, pid, ideal)
     kw2 = dict(kw)
     for q in ('H', 'S'):
         if q in kw2: kw2[q] = kw2[q] * k
